@@ -1,9 +1,9 @@
 import OrbitModel.Proofs.ReplInv
 /-!
-# Replicator: the structural invariant is preserved by the four elementary moves
+# Replicator: the structural invariant is preserved by the elementary moves (1)
 
 `enqd` (queue fresh hashes), `drop` (a worker gives up: task deleted), `promote` (a waiting worker
-gets a slot), `complete` (a fetch returns).
+gets a slot). `Proofs/ReplInvF.lean`: `toFin` (a fetch returns), `complete` (`processEntryDone`).
 -/
 namespace Orbit.Repl
 
@@ -35,6 +35,12 @@ theorem lookup_set_task {s s' : St} {h : Nat} {t : TS}
   simp only [task_def, setTask] at this
   simp only [task_def, h2]; exact this
 
+theorem got_mono {s s' : St} (ht : ∀ k, task s k = some .fetched → task s' k = some .fetched)
+    (hw : ∀ w ∈ s.workers, w.pc = .finishing → w ∈ s'.workers) {k : Nat} : got s k → got s' k := by
+  rintro (hk | ⟨w, hm, e, hp⟩)
+  · exact Or.inl (ht k hk)
+  · exact Or.inr ⟨w, hw w hm hp, e, hp⟩
+
 theorem InvS.enqd {net : Nat → Info} {s : St} (h : InvS net s) (ctx : Nat) {nw : List Nat}
     (hnd : nw.Nodup) (hnew : ∀ k ∈ nw, task s k = none) : InvS net (enqd s ctx nw) := by
   have hold : ∀ k t, task s k = some t → task (Orbit.Repl.enqd s ctx nw) k = some t := by
@@ -46,7 +52,8 @@ theorem InvS.enqd {net : Nat → Info} {s : St} (h : InvS net s) (ctx : Nat) {nw
     intro w hw e
     have := h.w_task w hw
     rw [hnew _ e] at this; cases this
-  refine ⟨?_, keys_nodup_enqd ctx h.keys_nodup hnd hnew, ?_, ?_, ?_, ?_, ?_, h.buf_nodup, h.log_nodup, ?_, ?_⟩
+  refine ⟨?_, keys_nodup_enqd ctx h.keys_nodup hnd hnew, ?_, ?_, ?_, ?_, ?_, ?_, ?_, h.buf_nodup,
+    h.log_nodup, ?_, ?_⟩
   · rw [enqd_inProgress, enqd_workers, List.countP_append, countP_spawn, Nat.add_zero]
     exact h.inprog_eq
   · rw [enqd_workers, List.map_append, spawn_items, List.nodup_append]
@@ -71,9 +78,18 @@ theorem InvS.enqd {net : Nat → Info} {s : St} (h : InvS net s) (ctx : Nat) {nw
       exact ⟨w, List.mem_append.2 (Or.inl hw), e1, e2⟩
   · rw [enqd_queue, enqd_workers, List.filter_append, filter_spawn, List.map_append, spawn_items,
       h.queue_eq]
+  · intro b hb k hk
+    exact ⟨hold _ _ (h.pend_fetched b hb k hk).1, (h.pend_fetched b hb k hk).2⟩
   · intro k hk
-    rw [inBP_enqd] at hk
-    exact ⟨hold _ _ (h.bp_fetched k hk).1, (h.bp_fetched k hk).2⟩
+    refine ⟨got_mono (fun k hk => hold k _ hk) ?_ (h.buf_got k hk).1, (h.buf_got k hk).2⟩
+    intro w hw _
+    rw [enqd_workers]; exact List.mem_append.2 (Or.inl hw)
+  · intro w hw hp hf
+    rw [enqd_workers] at hw
+    rcases List.mem_append.1 hw with hw | hw
+    · exact h.fin_buf w hw hp hf
+    · obtain ⟨k, _, rfl⟩ := mem_spawn.1 hw
+      cases hp
   · intro k hk
     exact ⟨hold _ _ (h.log_ok k hk).1, (h.log_ok k hk).2⟩
   · intro k hk hv hf
@@ -85,9 +101,9 @@ theorem InvS.enqd {net : Nat → Info} {s : St} (h : InvS net s) (ctx : Nat) {nw
       exact h.fetched_in k hk hv hf
 
 theorem InvS.drop {net : Nat → Info} {s s' : St} (h : InvS net s) {l1 l2 : List Worker} {w : Worker}
-    (hw : s.workers = l1 ++ w :: l2) (h1 : s'.workers = l1 ++ l2)
+    (hw : s.workers = l1 ++ w :: l2) (hpc : w.pc ≠ .finishing) (h1 : s'.workers = l1 ++ l2)
     (h2 : s'.tasks = s.tasks.filter (·.1 != w.item))
-    (h3 : s'.inProgress = (l1 ++ l2).countP isFetch)
+    (h3 : s'.inProgress = (l1 ++ l2).countP isHold)
     (h4 : s'.queue = ((l1 ++ l2).filter isWait).map (·.item))
     (h5 : s'.log = s.log) (h6 : s'.buffer = s.buffer) (h7 : s'.pending = s.pending) : InvS net s' := by
   have hnd := h.w_nodup; rw [hw] at hnd
@@ -107,8 +123,17 @@ theorem InvS.drop {net : Nat → Info} {s s' : St} (h : InvS net s) {l1 l2 : Lis
     · simp [e] at hk
     · simp only [e, if_false] at hk; exact ⟨fun e' => e e'.symm, hk⟩
   have hbp : ∀ k, inBP s' k ↔ inBP s k := inBP_congr h6 h7
+  have hfin : ∀ w' ∈ s.workers, w'.pc = .finishing → w' ∈ s'.workers := by
+    intro w' hw' hp
+    rw [hw] at hw'; rw [h1]
+    rcases List.mem_append.1 hw' with hm | hm
+    · exact List.mem_append.2 (Or.inl hm)
+    · rcases List.mem_cons.1 hm with rfl | hm
+      · exact absurd hp hpc
+      · exact List.mem_append.2 (Or.inr hm)
   refine ⟨by rw [h3, h1], by rw [h2]; exact keys_nodup_filter _ h.keys_nodup, by rw [h1]; exact hnd',
-    ?_, ?_, by rw [h4, h1], ?_, by rw [h6]; exact h.buf_nodup, by rw [h5]; exact h.log_nodup, ?_, ?_⟩
+    ?_, ?_, by rw [h4, h1], ?_, ?_, ?_, by rw [h6]; exact h.buf_nodup, by rw [h5]; exact h.log_nodup,
+    ?_, ?_⟩
   · intro w' hw'
     rw [h1] at hw'
     rw [ht]
@@ -120,9 +145,15 @@ theorem InvS.drop {net : Nat → Info} {s s' : St} (h : InvS net s) {l1 l2 : Lis
     obtain ⟨w', hw', e1, e2⟩ := h.task_w k t hk' hnf
     rw [hw] at hw'
     exact ⟨w', h1 ▸ mem_split_ne hw' (e1 ▸ hkw), e1, e2⟩
-  · intro k hk
-    have := h.bp_fetched k ((hbp k).1 hk)
+  · intro b hb k hk
+    have := h.pend_fetched b (h7 ▸ hb) k hk
     exact ⟨hold k this.1, this.2⟩
+  · intro k hk
+    have := h.buf_got k (h6 ▸ hk)
+    exact ⟨got_mono hold hfin this.1, this.2⟩
+  · intro w' hw' hp hf
+    rw [h6]
+    exact h.fin_buf w' (hw ▸ mem_split_of (h1 ▸ hw')) hp hf
   · intro k hk
     have := h.log_ok k (h5 ▸ hk)
     exact ⟨hold k this.1, this.2⟩
@@ -148,10 +179,18 @@ theorem InvS.promote {net : Nat → Info} {s s' : St} (h : InvS net s) {l1 l2 : 
     have : ¬ hh = k := fun e => by rw [← e, hwt] at hk; cases hk
     simp only [this, if_false]; exact hk
   have hbp : ∀ k, inBP s' k ↔ inBP s k := inBP_congr h6 h7
-  refine ⟨?_, by rw [h2]; exact keys_nodup_set _ _ h.keys_nodup, ?_, ?_, ?_, ?_, ?_,
+  have hfin : ∀ w' ∈ s.workers, w'.pc = .finishing → w' ∈ s'.workers := by
+    intro w' hw' hp
+    rw [hw] at hw'; rw [h1]
+    rcases List.mem_append.1 hw' with hm | hm
+    · exact List.mem_append.2 (Or.inl hm)
+    · rcases List.mem_cons.1 hm with rfl | hm
+      · cases hp
+      · exact List.mem_append.2 (Or.inr (List.mem_cons_of_mem _ hm))
+  refine ⟨?_, by rw [h2]; exact keys_nodup_set _ _ h.keys_nodup, ?_, ?_, ?_, ?_, ?_, ?_, ?_,
     by rw [h6]; exact h.buf_nodup, by rw [h5]; exact h.log_nodup, ?_, ?_⟩
   · rw [h3, h1, h.inprog_eq, hw]
-    simp [List.countP_append, isFetch]; omega
+    simp [List.countP_append, List.countP_cons]; omega
   · rw [h1]; simpa using hnd
   · intro w' hw'
     rw [h1] at hw'
@@ -183,9 +222,22 @@ theorem InvS.promote {net : Nat → Info} {s s' : St} (h : InvS net s) {l1 l2 : 
     have := queue_drop (l1 := l1) (l2 := l2) (w := ⟨ctx, hh, .waitSlot⟩) rfl hne
     rw [this]
     simp [List.filter_append, isWait]
-  · intro k hk
-    have := h.bp_fetched k ((hbp k).1 hk)
+  · intro b hb k hk
+    have := h.pend_fetched b (h7 ▸ hb) k hk
     exact ⟨hold k this.1, this.2⟩
+  · intro k hk
+    have := h.buf_got k (h6 ▸ hk)
+    exact ⟨got_mono hold hfin this.1, this.2⟩
+  · intro w' hw' hp hf
+    rw [h6]
+    rw [h1] at hw'
+    apply h.fin_buf w' _ hp hf
+    rw [hw]
+    rcases List.mem_append.1 hw' with hm | hm
+    · exact List.mem_append.2 (Or.inl hm)
+    · rcases List.mem_cons.1 hm with rfl | hm
+      · cases hp
+      · exact List.mem_append.2 (Or.inr (List.mem_cons_of_mem _ hm))
   · intro k hk
     have := h.log_ok k (h5 ▸ hk)
     exact ⟨hold k this.1, this.2⟩
@@ -196,97 +248,5 @@ theorem InvS.promote {net : Nat → Info} {s s' : St} (h : InvS net s) {l1 l2 : 
     · simp [e] at hk
     · simp only [e, if_false] at hk
       exact h.fetched_in k hk hv hf
-
-theorem InvS.complete {net : Nat → Info} {s s' : St} (h : InvS net s) {l1 l2 : List Worker}
-    {ctx hh : Nat} (hw : s.workers = l1 ++ ⟨ctx, hh, .fetching⟩ :: l2)
-    (h1 : s'.workers = l1 ++ l2)
-    (h2 : s'.tasks = (hh, .fetched) :: s.tasks.filter (·.1 != hh))
-    (h3 : s'.inProgress = s.inProgress - 1) (h4 : s'.queue = s.queue)
-    (h5 : s'.log = s.log) (h7 : s'.pending = s.pending)
-    (h6 : ((net hh).foreign = true ∧ s'.buffer = s.buffer) ∨
-          ((net hh).foreign = false ∧ s'.buffer = s.buffer ++ [hh])) : InvS net s' := by
-  have hnd := h.w_nodup; rw [hw] at hnd
-  obtain ⟨hnd', hne⟩ := nodup_split hnd
-  have ht := lookup_set_task h2
-  have hwt : task s hh = some .fetching :=
-    h.w_task ⟨ctx, hh, .fetching⟩ (hw ▸ List.mem_append.2 (Or.inr List.mem_cons_self))
-  have hold : ∀ k, task s k = some .fetched → task s' k = some .fetched := by
-    intro k hk
-    rw [ht]
-    by_cases e : hh = k
-    · simp [e]
-    · simp only [e, if_false]; exact hk
-  have hbpm : ∀ k, inBP s k → inBP s' k := by
-    intro k hk
-    unfold inBP at hk ⊢
-    rw [h7]
-    rcases hk with hk | hk
-    · left
-      rcases h6 with ⟨_, e⟩ | ⟨_, e⟩ <;> rw [e]
-      · exact hk
-      · exact List.mem_append.2 (Or.inl hk)
-    · exact Or.inr hk
-  have hbpb : ∀ k, inBP s' k → inBP s k ∨ (k = hh ∧ (net hh).foreign = false) := by
-    intro k hk
-    unfold inBP at hk ⊢
-    rw [h7] at hk
-    rcases hk with hk | hk
-    · rcases h6 with ⟨_, e⟩ | ⟨hf, e⟩ <;> rw [e] at hk
-      · exact Or.inl (Or.inl hk)
-      · rcases List.mem_append.1 hk with hk | hk
-        · exact Or.inl (Or.inl hk)
-        · exact Or.inr ⟨List.mem_singleton.1 hk, hf⟩
-    · exact Or.inl (Or.inr hk)
-  refine ⟨?_, by rw [h2]; exact keys_nodup_set _ _ h.keys_nodup, by rw [h1]; exact hnd', ?_, ?_, ?_, ?_,
-    ?_, by rw [h5]; exact h.log_nodup, ?_, ?_⟩
-  · rw [h3, h1, h.inprog_eq, hw]
-    simp [List.countP_append, isFetch]
-  · intro w' hw'
-    rw [h1] at hw'
-    rw [ht]
-    have : ¬ hh = w'.item := fun e => hne w' hw' e.symm
-    simp only [this, if_false]
-    exact h.w_task w' (hw ▸ mem_split_of hw')
-  · intro k t hk hnf
-    rw [ht] at hk
-    by_cases e : hh = k
-    · simp only [e, if_true, Option.some.injEq] at hk; exact absurd hk.symm hnf
-    · simp only [e, if_false] at hk
-      obtain ⟨w', hw', e1, e2⟩ := h.task_w k t hk hnf
-      rw [hw] at hw'
-      have hne' : w'.item ≠ hh := fun x => e (x.symm.trans e1)
-      exact ⟨w', h1 ▸ mem_split_ne (w := ⟨ctx, hh, .fetching⟩) hw' hne', e1, e2⟩
-  · rw [h4, h1, h.queue_eq, hw]
-    simp [List.filter_append, isWait]
-  · intro k hk
-    rcases hbpb k hk with hk | ⟨rfl, hf⟩
-    · have := h.bp_fetched k hk
-      exact ⟨hold k this.1, this.2⟩
-    · refine ⟨?_, hf⟩
-      rw [ht]; simp
-  · rcases h6 with ⟨_, e⟩ | ⟨_, e⟩ <;> rw [e]
-    · exact h.buf_nodup
-    · rw [List.nodup_append]
-      refine ⟨h.buf_nodup, by simp, ?_⟩
-      intro a ha b hb e
-      rw [List.mem_singleton] at hb
-      have := (h.bp_fetched a (Or.inl ha)).1
-      rw [e, hb, hwt] at this; cases this
-  · intro k hk
-    have := h.log_ok k (h5 ▸ hk)
-    exact ⟨hold k this.1, this.2⟩
-  · intro k hk hv hf
-    rw [h5]
-    rw [ht] at hk
-    by_cases e : hh = k
-    · subst e
-      right
-      rcases h6 with ⟨hf', _⟩ | ⟨_, e⟩
-      · rw [hf] at hf'; cases hf'
-      · left; rw [e]; exact List.mem_append.2 (Or.inr (List.mem_singleton.2 rfl))
-    · simp only [e, if_false] at hk
-      rcases h.fetched_in k hk hv hf with h' | h'
-      · exact Or.inl h'
-      · exact Or.inr (hbpm k h')
 
 end Orbit.Repl
